@@ -23,7 +23,7 @@ theorem epoch_fields_consecutive_within (e : EpochExt) (i : Nat)
   rw [epoch_successor_iff_next_position _ _ hg, a1, a2, a3, b1, b2, b3]
   have : ¬ (i + 1 = e.length) := by omega
   simp only [this, if_false]
-  omega
+  exact ⟨⟨by omega, hi⟩, trivial, trivial, trivial⟩
 
 /-- across an epoch boundary: the last block of epoch `e` and the first block of the epoch computed by
 `next_epoch_ext` carry consecutive epoch fields -/
@@ -53,5 +53,6 @@ theorem epoch_fields_consecutive_across {P : Params} {e o : EpochExt} {hc u ms :
   rw [epoch_successor_iff_next_position _ _ hg, a1, a2, a3, b1, b2, b3]
   have : e.length - 1 + 1 = e.length := by omega
   simp only [this, if_true]
-  omega
+  trace_state
+  refine ⟨⟨by omega, by omega⟩, ?_, ?_⟩ <;> first | trivial | omega
 end CkbVerif.C07
